@@ -101,7 +101,8 @@ def routed(nb):
 
 
 def common_pre(nb):
-    return ghost_decls(nb) + neighbors_contract(nb) + slope_abstraction(nb) + PRED
+    return ("#ifndef FSL_ROUTER_COMMON\n#define FSL_ROUTER_COMMON\n" + ghost_decls(nb) + neighbors_contract(nb) + slope_abstraction(nb)
+            + PRED + "#endif\n")
 
 
 # ------------------------------------------------------------------ donor-table predicates (ghost row GR, slots GS < GS2)
@@ -300,10 +301,12 @@ def make_par_donors(nb):
         name="router_par_donors", file=ROUTER_H, anchor=PAR_ANCHOR,
         inner=r"pool\.pause\(\);\s*for \(auto i : grid\.nodes_indices\(\)\)\s*\{",
         sig="void router_par_donors_step(size_t i, %s)" % PARAMS,
-        pre=PRED if False else "", defs=DEFS,
-        rules=DONOR_RULES,
+        pre="", defs=DEFS,
+        # `irec < size`: instance of the block loop's postcondition (C04 at node i: the receiver is the node itself or one of
+        # its neighbours) at the node being read -- the table is read-only in this loop (DESIGN 3.2)
+        rules=DONOR_RULES + [R(r"(size_t irec = receivers\(i, 0\);)", r"\1 FSL_PRE(irec < gsize);", 1)],
         contract=FRESH + r"""
-__CPROVER_requires(i < gsize && GR < gsize && GS < DON_W && REC(i) < gsize)
+__CPROVER_requires(i < gsize && GR < gsize && GS < DON_W)
 __CPROVER_assigns(__CPROVER_object_whole(m_donors), __CPROVER_object_whole(m_donors_count))
 __CPROVER_ensures(CNT(GR) == __CPROVER_old(CNT(GR)) + ((REC(i) == GR) ? 1 : 0))
 __CPROVER_ensures(%s)
@@ -445,41 +448,77 @@ __CPROVER_decreases(gsize - i)
 APPLY_ANCHOR = (r"class flow_operator_impl<FG, single_flow_router, flow_graph_fixed_array_tag>.*?"
                 r"void apply\(graph_impl_type& graph_impl,\s*data_array_type& elevation,\s*thread_pool_type& pool\)")
 
+# Typestate abstraction of the quantified facts involved in apply(): a whole-array fill establishes "every cell == v", recorded in
+# a ghost summary per table; the sweeps require "donors_count is all zero" (the precondition instance CNT(GR)==0 of their contracts
+# for every row).  Monolithic DFCC replacement of the two sweeps (four whole-object havocs of symbolic-size tables) did not finish.
+APPLY_MODEL = r"""
+enum { T_RCOUNT = 0, T_WEIGHT0 = 1, T_DCOUNT = 2 };
+int  ALL_SET[3];      /* ghost: table t currently holds one value in every cell ...            */
+double ALL_VAL[3];    /* ... namely this one                                                    */
+int SWEPT_SEQ, SWEPT_PAR;
+static void fsl_fill_tbl(int t, double v) { ALL_SET[t] = 1; ALL_VAL[t] = v; }
+static void sweep_model(int par)
+{
+    /* SWEEP_RESETS_x: read from the sweep's own text on this run -- does it zero donors_count itself before its first loop? */
+    if (par ? SWEEP_RESETS_PAR : SWEEP_RESETS_SEQ) fsl_fill_tbl(T_DCOUNT, 0);
+    __CPROVER_assert(ALL_SET[T_DCOUNT] && ALL_VAL[T_DCOUNT] == 0, "C06 donors_count is zero when the sweep starts appending donors (reset by apply() or by the sweep itself)");
+    ALL_SET[T_DCOUNT] = 0;   /* the sweep writes the donor tables */
+    if (par) SWEPT_PAR++; else SWEPT_SEQ++;
+}
+"""
+
+
+def _sweep_resets(anchor):
+    """does the sweep zero donors_count itself before its first loop? (read from the source on every run)"""
+    import os, re
+    from fv import extract as ex
+    src = ex.strip_comments(open(os.path.join(ex.REPO, ROUTER_H)).read())
+    m = re.search(anchor, src, re.S)
+    if not m:
+        raise ex.ExtractionError("sweep anchor not found")
+    ob = src.index("{", m.end())
+    body = src[ob:ex.match_brace(src, ob)]
+    head = body.split("for (")[0]
+    return 1 if re.search(r"donors_count\.fill\(0\)", head) else 0
+
 
 def make_apply(nb):
-    DON_W = nb + 1
+    flags = "#define SWEEP_RESETS_SEQ %d\n#define SWEEP_RESETS_PAR %d\n" % (
+        _sweep_resets(r"void apply_seq\(graph_impl_type& graph_impl, data_array_type& elevation\)"), _sweep_resets(PAR_ANCHOR))
     return Unit(
         name="router_apply", file=ROUTER_H, anchor=APPLY_ANCHOR,
-        sig="void router_apply(size_t op_threads_count, size_t *m_receivers_count, double *m_receivers_weight, %s)" % PARAMS,
-        pre=FILL_MODEL, defs=DEFS,
-        rules=[V(r"graph_impl\.m_receivers_count\.fill\(", "fsl_fill_sz(m_receivers_count, gsize, "),
-               V(r"graph_impl\.m_donors_count\.fill\(", "fsl_fill_sz(m_donors_count, gsize, "),
-               R(r"auto weights = xt::col\(graph_impl\.m_receivers_weight, 0\);\s*weights\.fill\(", "fsl_fill_col0_d(m_receivers_weight, gsize, ", 1),
+        sig="void router_apply(int op_threads_count)",
+        pre=flags + APPLY_MODEL,
+        rules=[V(r"graph_impl\.m_receivers_count\.fill\(", "fsl_fill_tbl(T_RCOUNT, "),
+               V(r"graph_impl\.m_donors_count\.fill\(", "fsl_fill_tbl(T_DCOUNT, "),
+               R(r"auto weights = xt::col\(graph_impl\.m_receivers_weight, 0\);\s*weights\.fill\(", "fsl_fill_tbl(T_WEIGHT0, ", 1),
                V(r"m_op_ptr->threads_count\(\)", "op_threads_count"),
-               V(r"apply_par\(graph_impl, elevation, pool\)", "router_par(op_threads_count, %s)" % ARGS),
-               V(r"apply_seq\(graph_impl, elevation\)", "router_seq(%s)" % ARGS),
+               V(r"apply_par\(graph_impl, elevation, pool\)", "sweep_model(1)"),
+               V(r"apply_seq\(graph_impl, elevation\)", "sweep_model(0)"),
                # traversal orders are separate functions under their own contracts (C06)
                R(r"graph_impl\.compute_dfs_indices_bottomup\(\);\s*graph_impl\.compute_bfs_indices_bottomup\(\);", "", 1)],
-        contract=FRESH + ghost_requires(nb) + r"""
-__CPROVER_requires(__CPROVER_is_fresh(m_receivers_count, gsize * 8) && __CPROVER_is_fresh(m_receivers_weight, gsize * REC_BYTES))
-__CPROVER_assigns(__CPROVER_object_whole(m_receivers), __CPROVER_object_whole(m_receivers_distance), __CPROVER_object_whole(m_receivers_count),
-                  __CPROVER_object_whole(m_receivers_weight), __CPROVER_object_whole(m_donors), __CPROVER_object_whole(m_donors_count))
-/* C04: one receiver with partition weight one, chosen by steepest descent; C06: donor rows are the inverse of the receiver column */
-__CPROVER_ensures(m_receivers_count[G] == 1 && m_receivers_weight[G * REC_W] == 1.0)
-__CPROVER_ensures(%(ROUTED)s)
-__CPROVER_ensures(%(SOUND)s)
-__CPROVER_ensures(%(DISTINCT)s)
-__CPROVER_ensures(%(COMPLETE)s)
-""" % dict(ROUTED=routed(nb), SOUND=SOUND % "gsize", DISTINCT=DISTINCT, COMPLETE=complete("gsize", DON_W, True)),
     )
+
+
+H_APPLY = r"""
+int nondet_int(void);
+void h_router_apply(void)
+{
+    int t = nondet_int();
+    ALL_SET[0] = ALL_SET[1] = ALL_SET[2] = 0; SWEPT_SEQ = SWEPT_PAR = 0;   /* nothing is known about the tables before the call */
+    router_apply(t);
+    __CPROVER_assert(ALL_SET[T_RCOUNT] && ALL_VAL[T_RCOUNT] == 1, "C04 every node has exactly one receiver (receivers_count filled with 1)");
+    __CPROVER_assert(ALL_SET[T_WEIGHT0] && ALL_VAL[T_WEIGHT0] == 1.0, "C04 partition weight one (first weight column filled with 1)");
+    __CPROVER_assert(SWEPT_SEQ + SWEPT_PAR == 1 && (SWEPT_PAR == 1) == (t > 1), "exactly one sweep runs: the multi-threaded one iff threads_count > 1");
+    __CPROVER_assert(0, "canary: postcondition point reachable");
+}
+"""
 
 
 def apply_groups(nb, tier="quick"):
     step, outer = make_seq_step(nb), make_seq_outer(nb)
     pstep, pblock, pdon, pwhole = make_par_step(nb), make_par_block(nb), make_par_donors(nb), make_par_whole(nb)
-    app = make_apply(nb)
     h_par = harness("router_par", nb, "nondet_size_t(), ")
-    h_app = harness("router_apply", nb, "nondet_size_t(), rc, rw, ").replace("const _Bool *m_mask, *base_level;", "size_t *rc; double *rw; const _Bool *m_mask, *base_level;")
     g_don = Group(
         name="router.par.donors_step.nb%d" % nb, units=[is_masked, is_base_level, pstep, pdon],
         harness=harness("router_par_donors_step", nb, "nondet_size_t(), "), entry="h_router_par_donors_step",
@@ -491,17 +530,22 @@ def apply_groups(nb, tier="quick"):
         loop_contracts=True, defines=defines(nb), backend="sat", timeout=900, min_obligations=50, tier=tier, replay="replay/routing.cpp",
         clause="apply_par as a whole under the sequential model of run_blocks (any partition into contiguous blocks): C04 at every node, "
                "donor rows sound / duplicate-free / complete after the rebuild loop")
-    g_app = Group(
-        name="router.apply.nb%d" % nb, units=[is_masked, is_base_level, step, outer, pstep, pblock, pdon, pwhole, app],
-        harness=h_app, entry="h_router_apply", enforce="router_apply",
-        replace=["router_seq", "router_par", "fsl_fill_sz", "fsl_fill_col0_d"],
-        defines=defines(nb), backend="sat", timeout=600, min_obligations=30, tier=tier, replay="replay/routing.cpp",
-        clause="single_flow_router::apply: receivers_count = 1 and weight 1 everywhere, donors_count reset before EITHER sweep (the sweeps' "
-               "precondition), dispatch on the thread count; C04 + C06 donor inverse as postcondition for both paths")
-    return [g_don, g_par, g_app]
+    g_apps = [Group(
+        name="router.apply.typestate", units=[make_apply(nb)], harness=H_APPLY, entry="h_router_apply",
+        backend="sat", timeout=120, min_obligations=4, tier=tier, replay="replay/routing.cpp",
+        clause="single_flow_router::apply prologue and dispatch (typestate abstraction of the whole-table facts): receivers_count all 1, "
+               "first weight column all 1, donors_count reset to zero before EITHER sweep, exactly one sweep chosen by the thread count")]
+    return [g_don, g_par] + g_apps
 
 
 _APP = apply_groups(2)
 GROUPS["C04"] = GROUPS["C04"] + _APP
 GROUPS["C06"] = [g for g in GROUPS["C04"] if ".loop." in g.name or ".whole." in g.name or ".apply." in g.name or "donors_step" in g.name]
 GROUPS["C10"] = GROUPS["C10"] + [_APP[1]]
+PROPS["C06"] = dict(
+    level="other",
+    explanation="Donor table = exact inverse of the receiver table (sound, duplicate-free, complete) is proved unbounded for the single-direction "
+                "router (sequential and multi-threaded paths) and soundness for the multiple-direction router; the traversal orders "
+                "(permutation, receivers first, breadth-first levels) are counting/reachability statements decided only by bounded groups where listed.",
+    unmechanised=["permutation / level structure of the depth-first and breadth-first orders beyond the bounded groups"],
+)
